@@ -15,6 +15,7 @@ pub mod snapshot;
 pub mod symbols;
 pub mod text;
 pub mod wire;
+pub mod blockwire;
 pub mod robust;
 pub mod procrun;
 pub mod robust_model;
